@@ -18,8 +18,8 @@ Section GenEqRender.
   Notation V3 := (V3 O).
 
   (* ------------------------------------------------------------ constants *)
-  Lemma epsilon_eq : rg_render_epsilon = @Interp.eps O.
-  Proof. same_as TRANSL_render_epsilon. Qed.
+  (* constants (render.epsilon) are used by value in the generated definitions: a named constant and the
+     same literal written in place give the same term; the model's Interp.eps is unfolded to compare *)
 
   (* ------------------------------------------------------------ vec helpers used by render *)
   Lemma v3_Equals_eq : forall (a b : V3) (tol : T), rg_v3_Vec_Equals a b tol = v3_equals a b tol.
@@ -39,13 +39,13 @@ Section GenEqRender.
   Lemma mcInterpolate_eq : forall (p1 p2 : V3) (v1 v2 x : T),
       rg_render_mcInterpolate p1 p2 v1 v2 x = mc_interpolate p1 p2 v1 v2 x.
   Proof.
-    intros. unfold rg_render_mcInterpolate, mc_interpolate, interp_pick. rewrite epsilon_eq.
+    intros. unfold rg_render_mcInterpolate, mc_interpolate, interp_pick, Interp.eps, epsilon_num, epsilon_den.
     by_cases TRANSL_render_mcInterpolate.
   Qed.
   Lemma msInterpolate_eq : forall (p1 p2 : V2) (v1 v2 x : T),
       rg_render_msInterpolate p1 p2 v1 v2 x = ms_interpolate p1 p2 v1 v2 x.
   Proof.
-    intros. unfold rg_render_msInterpolate, ms_interpolate, interp_pick. rewrite epsilon_eq.
+    intros. unfold rg_render_msInterpolate, ms_interpolate, interp_pick, Interp.eps, epsilon_num, epsilon_den.
     by_cases TRANSL_render_msInterpolate.
   Qed.
 
@@ -84,15 +84,33 @@ Section GenEqRender.
     rewrite <- (ms_with_ext _ _ _ _ _ _ _ msInterpolate_eq Line2_Degenerate_eq).
     unfold rg_render_msToLines, ms_to_lines_with, ms_index. cbv beta iota delta [sel4].
     generalize (@rg_render_msInterpolate O) (@rg_sdf_Line2_Degenerate O). intros F D.
-    match goal with |- context [zfor 0%Z 4%Z ?f 0%Z] => set (idx := zfor 0%Z 4%Z f 0%Z) end.
+    autounfold with rg_helpers.
+    (* the loop computing the configuration index: the one loop whose state is an integer *)
+    match goal with
+    | |- context [@zfor Z ?lo ?hi ?f ?s] => set (idx := @zfor Z lo hi f s)
+    | |- context [@fold_left Z ?B ?f ?l ?s] => set (idx := @fold_left Z B f l s)
+    end.
     assert (IDX : idx = Z.of_N (sq_of_bools (v0 <? x) (v1 <? x) (v2 <? x) (v3 <? x))).
     { subst idx. cbv -[oltb o0].
-      destruct (oltb O v0 x), (oltb O v1 x), (oltb O v2 x), (oltb O v3 x); reflexivity. }
+      destruct (oltb O v0 x), (oltb O v1 x), (oltb O v2 x), (oltb O v3 x);
+        first [ reflexivity | fail 1 "TRANSL_render_msToLines: the configuration index is not the sum of 1<<i over the corners with v[i] < x" ]. }
     clearbody idx. subst idx.
     destruct (oltb O v0 x), (oltb O v1 x), (oltb O v2 x), (oltb O v3 x);
       (vm_compute;
        repeat match goal with |- context [D ?t ?tol] => destruct (D t tol) end;
        first [ reflexivity | fail 1 "TRANSL_render_msToLines: the generated msToLines differs from the model on a configuration" ]).
+  Qed.
+
+  (* the same for corner positions / values given as any lists of four elements *)
+  Lemma msToLines_list_eq : forall (P : list V2) (V : list T) (x : T),
+      length P = 4%nat -> length V = 4%nat ->
+      rg_render_msToLines P V x =
+      ms_to_lines (sel4 (znth 0 P v2zero) (znth 1 P v2zero) (znth 2 P v2zero) (znth 3 P v2zero))
+                  (sel4 (znth 0 V (o0 O)) (znth 1 V (o0 O)) (znth 2 V (o0 O)) (znth 3 V (o0 O))) x.
+  Proof.
+    intros P V x HP HV.
+    do 5 (destruct P as [|? P]; try discriminate HP). do 5 (destruct V as [|? V]; try discriminate HV).
+    apply msToLines_eq.
   Qed.
 
   (* ------------------------------------------------------------ render/march3.go: lattice arithmetic *)
@@ -138,19 +156,17 @@ Section GenEqRender.
   Lemma newDcache3_eq : forall (origin : V3) (res : T) (n : nat),
       rg_render_newDcache3 origin res (Z.of_nat n) = (origin, res, hdiag3_table res n).
   Proof.
-    intros. unfold rg_render_newDcache3, hdiag3_table. cbv zeta. f_equal.
-    unfold zrepeat, zlen. rewrite repeat_length, Nat2Z.id.
-    rewrite (zfor_fill n _ (fun i => half * osqrt O ((ofZ O 3 * (ofZ O (Z.shiftl 1 i) * res)) * (ofZ O (Z.shiftl 1 i) * res))))
-      by (intros; first [ reflexivity | fail 1 "TRANSL_render_newDcache3: the loop body is not `dc.hdiag[i] = 0.5*sqrt(3*s*s)`" ]).
+    intros. unfold rg_render_newDcache3, hdiag3_table. autounfold with rg_helpers. cbv zeta. f_equal.
+    table_loop n (fun i => half * osqrt O ((ofZ O 3 * (ofZ O (Z.shiftl 1 i) * res)) * (ofZ O (Z.shiftl 1 i) * res)))
+               TRANSL_render_newDcache3.  (* dc.hdiag[i] = 0.5*sqrt(3*s*s), s = (1<<i)*resolution, for i < n *)
     rewrite zrange_0, map_map. apply map_ext. intros k. now rewrite shiftl_pow2.
   Qed.
   Lemma newDcache2_eq : forall (origin : V2) (res : T) (n : nat),
       rg_render_newDcache2 origin res (Z.of_nat n) = (origin, res, hdiag2_table res n).
   Proof.
-    intros. unfold rg_render_newDcache2, hdiag2_table. cbv zeta. f_equal.
-    unfold zrepeat, zlen. rewrite repeat_length, Nat2Z.id.
-    rewrite (zfor_fill n _ (fun i => half * osqrt O ((two * (ofZ O (Z.shiftl 1 i) * res)) * (ofZ O (Z.shiftl 1 i) * res))))
-      by (intros; first [ reflexivity | fail 1 "TRANSL_render_newDcache2: the loop body is not `dc.hdiag[i] = 0.5*sqrt(2*s*s)`" ]).
+    intros. unfold rg_render_newDcache2, hdiag2_table. autounfold with rg_helpers. cbv zeta. f_equal.
+    table_loop n (fun i => half * osqrt O ((two * (ofZ O (Z.shiftl 1 i) * res)) * (ofZ O (Z.shiftl 1 i) * res)))
+               TRANSL_render_newDcache2.  (* dc.hdiag[i] = 0.5*sqrt(2*s*s), s = (1<<i)*resolution, for i < n *)
     rewrite zrange_0, map_map. apply map_ext. intros k. now rewrite shiftl_pow2.
   Qed.
 
